@@ -554,6 +554,12 @@ SPLIT_WITNESSES = [
     ("typed", f"S({_n('m')}:{_MODE})", 'm.Pair.1 = "x"\nm.Pair.0 = 1\n', "tuple-variant-table-key-order-document"),
     ("typed", f"S({_n('m')}:{_MODE})", '[m.Tuned]\nlevel = 1\nlabel = "x"\nzz = 0\n', "unknown-key-in-struct-variant-document"),
     ("typed", f"S({_n('p')}:T(i64,s))", 'p = [1, "x", true]\n', "trailing-element-tuple-document"),
+    # components of the SAME type: if a route accepted the shuffled keys without reordering, two routes would succeed
+    # with different values
+    ("typedv", f"E({_n('Span')}:T(i64,i64))", "{ Span = { 1 = 5, 0 = 7 } }", "tuple-variant-table-key-order-same-type"),
+    ("typedv", f"E({_n('Span')}:T(s,s,s))", '{ Span = { 2 = "c", 0 = "a", 1 = "b" } }', "tuple-variant-table-key-order-same-type-3"),
+    ("typed", f"S({_n('m')}:E({_n('Span')}:T(i64,i64)))", "[m.Span]\n1 = 5\n0 = 7\n", "tuple-variant-table-key-order-same-type-document"),
+    ("typed", f"E({_n('Span')}:T(i64,i64))", "[Span]\n1 = 5\n0 = 7\n", "tuple-variant-table-key-order-same-type-root"),
 ]
 AGREE_WITNESSES = [
     ("typedv", _MODE, '"Fast"'), ("typedv", _MODE, '"Custom"'), ("typedv", _MODE, "{ Custom = 5 }"), ("typedv", _MODE, '{ Pair = [1, "a"] }'),
@@ -593,6 +599,16 @@ def gen_typed(rng, big, hist):
     """[(flavour, case line, kind, intended Dec or None)]"""
     g = TypedGen(rng, hist)
     out = []
+    for j in range(400 if big else 60):
+        n = rng.choice([2, 2, 3, 4])
+        leaf, lit = rng.choice([("i64", lambda i: str(10 + i)), ("s", lambda i: f'"v{i}"'), ("b", lambda i: "true" if i % 2 else "false"), ("f64", lambda i: f"{i}.5")])
+        ty = f"E({hx('V')}:T(" + ",".join([leaf] * n) + f"),{hx('U')})"
+        order = list(range(n))
+        rng.shuffle(order)
+        body = ", ".join(f"{i} = {lit(i)}" for i in order)
+        fl = "SP"[j % 2]
+        out.append((fl, f"typedv {fl} {ty} {hx('{ V = { ' + body + ' } }')}", "typed-tuple-variant-shuffled-keys", None))
+        out.append((fl, f"typed {fl} S({hx('m')}:{ty}) {hx('[m.V]' + chr(10) + chr(10).join(f'{i} = {lit(i)}' for i in order) + chr(10))}", "typed-tuple-variant-shuffled-keys", None))
     for op, ty, text, why in SPLIT_WITNESSES:
         for fl in "SP":
             out.append((fl, f"{op} {fl} {ty} {hx(text)}", "typed-fixed-split", None))
